@@ -126,6 +126,7 @@ static void runChild(const std::vector<std::string> &lines, size_t from, size_t 
     signal(SIGABRT, childAbort);
     signal(SIGUSR1, childRss);
     struct itimerval it; memset(&it, 0, sizeof it); it.it_value.tv_sec = CPU_LIMIT_S;
+    if(getenv("VERIF_LOADER_CPU_S")) it.it_value.tv_sec = atoi(getenv("VERIF_LOADER_CPU_S"));      // diagnostics only
     setitimer(ITIMER_PROF, &it, NULL);
     alarm(WALL_LIMIT_S);
 
